@@ -54,6 +54,13 @@ def search(ctx, N):
                     ctx.violation('jacobian-shape:m=%s' % ('1' if m == 1 else '>1'), 'Jacobian of a map R^%d -> R^%d has shape %r' % (n, m, np.shape(J)), desc)
                 elif not np.allclose(J, exact, rtol=1e-6, atol=1e-6 * (1 + np.max(np.abs(exact)))):
                     ctx.violation('jacobian-value:%s' % method, 'Jacobian differs from the analytic Jacobian by %.3g' % float(np.max(np.abs(J - exact))), desc)
+                Jf, jinfo = nd.Jacobian(f, method=method, order=order, full_output=True)(x)
+                ctx.count(1, ('jacobian-full-output', method, m == 1))
+                if np.shape(Jf) != (m, n) or not np.array_equal(np.asarray(Jf), np.asarray(J)):
+                    ctx.violation('jacobian-full-output-differs', 'Jacobian(..., full_output=True) returns shape %r / other numbers than Jacobian(...) of shape %r' % (np.shape(Jf), np.shape(J)), desc)
+                elif np.size(jinfo.error_estimate) != m * n or np.size(jinfo.final_step) != m * n or np.size(jinfo.index) != m * n:
+                    ctx.violation('jacobian-record-shape', 'the full_output record of Jacobian does not have one error_estimate / final_step / index per entry: shapes %r %r %r' % (
+                        np.shape(jinfo.error_estimate), np.shape(jinfo.final_step), np.shape(jinfo.index)), desc)
             elif kind == 2:
                 Bm = rng.normal(size=(m, kk, n))
 
@@ -84,6 +91,15 @@ def search(ctx, N):
                     ctx.violation('gradient-shape', 'Gradient for x of shape %r has shape %r, expected %r' % (shp, np.shape(G), want), desc)
                 elif not np.allclose(G, exact.reshape(want), rtol=1e-8, atol=1e-8):
                     ctx.violation('gradient-value:%s' % method, 'Gradient of a quadratic differs from g + Q x by %.3g' % float(np.max(np.abs(G - exact.reshape(want)))), desc)
+                # the same call with full_output=True: same shape, same bits, record entries of the same shape
+                Gf, ginfo = nd.Gradient(f, method=method, order=order, full_output=True)(x.reshape(shp) if shp else float(x[0]))
+                ctx.count(1, ('gradient-full-output', method, n == 1))
+                if np.shape(Gf) != want:
+                    ctx.violation('gradient-shape:full_output', 'Gradient(..., full_output=True) for x of shape %r has shape %r, expected %r (as without full_output)' % (shp, np.shape(Gf), want), desc)
+                elif not np.array_equal(np.asarray(Gf), np.asarray(G)):
+                    ctx.violation('gradient-full-output-differs', 'Gradient(..., full_output=True) returns other numbers than Gradient(...)', desc)
+                elif np.size(ginfo.error_estimate) != n or np.size(ginfo.final_step) != n or np.size(ginfo.index) != n:
+                    ctx.violation('gradient-record-shape', 'the full_output record of Gradient does not have one error_estimate / final_step / index per variable', desc)
                 v = rng.normal(size=n) * float(rng.choice([1.0, 5.0, 0.01]))
                 dd, info = nd.directionaldiff(f, x, v, method=method if method != 'multicomplex' else 'central', full_output=True)
                 ref = float(np.dot(exact, v) / np.linalg.norm(v))
